@@ -15,6 +15,8 @@ DISK = dict(pkg="./cache/disk", test="TestVerifDiskCorrespondence", name="disk",
 
 AUTH = dict(pkg=".", test="TestVerifAuthExhaustive", name="auth", diff=True)
 
+SRVWRITE = dict(pkg="./server", test="TestVerifServerWritePaths", name="srvwrite", diff=False)
+
 COMMON_TB = [
     "goroutine scheduling, sync.Mutex and the file system are modelled (atomic lock regions, process-visible file state), not verified",
 ]
@@ -37,7 +39,7 @@ PROPS = {
         level_text="Theorems on M1's Reserve: refusal iff current + backlog + size exceeds the hard limit, refusal leaves the state unchanged, retry succeeds after the backlog drained, no refusal when the option is off.",
         level_note=NOTE + "the uint64 sum is modelled exactly.", technique=TECH),
     "C02": dict(
-        lean="BR.Props.C02", runs=[BLOB, BLOBREAL], trusted_base=COMMON_TB + [
+        lean="BR.Props.C02", runs=[BLOB, BLOBREAL, DISK], trusted_base=COMMON_TB + [
             "zstd codecs (klauspost, libzstd) enter the theorems as a parameter satisfying Codec.Lawful; SHA-256 as an opaque function"],
         assumptions=["offset >= 0 (enforced by disk.get before the readers are called)"],
         level_text="Theorems on M2 (casblob): for every conformant file (any chunk size, any frames decoding to the chunks) and every offset below the size, both readers return exactly data[offset:] (raw: the bytes; zstd: a stream decoding to them); the writer's output is conformant; readers are total.",
@@ -47,7 +49,7 @@ PROPS = {
         level_text="Header encode/parse round trip and reader conformance theorems on M2; layout constants, file-name shapes and regexps regenerated from the source and compared by Bridge theorems; files from an independent encoder/reader in the harness.",
         level_note=NOTE + "published layout written once in Lean as the specification.", technique=TECH),
     "C01": dict(
-        lean="BR.Props.C01", runs=[BLOB, BLOBREAL, DISK], trusted_base=COMMON_TB + ["SHA-256 as an opaque function H; zstd codec as a parameter"],
+        lean="BR.Props.C01", runs=[BLOB, BLOBREAL, DISK, SRVWRITE], trusted_base=COMMON_TB + ["SHA-256 as an opaque function H; zstd codec as a parameter"],
         assumptions=[],
         level_text="Theorems on M2/M4: WriteAndClose / Put acknowledge iff the delivered bytes have the declared length and hash and the stream ended cleanly; a rejected upload leaves index and directory unchanged; per-path corollaries for the server front ends.",
         level_note=NOTE + "server paths are tied by the server-level correspondence runs.", technique=TECH),
